@@ -109,6 +109,13 @@ JudgeEvent(ev) ==
               /\ (ev.dec.ast = ev.ast \/ ~TypeOf(ev.dec.ast, ctx).ok \/ st.b # "B"
                   \/ SameSpend(ev.ast, ev.dec.ast, ctx) \/ Report("C04", "decode_semantics_differ", ev, ""))
               /\ (ev.dec.ast = ev.ast \/ TypeOf(ev.dec.ast, ctx).ok \/ Report("C04", "decode_ill_typed", ev, ""))))
+      \* C04, reverse direction: whatever the decoder accepts among the instruction-level mutations
+      \* of the real encoding is the canonical encoding of the miniscript it returns
+      /\ (ev.decmut.panics = 0 \/ Report("C11", "decoder_panic_on_mutated_script", ev, ev.decmut.panics))
+      /\ \A q \in 1..Len(ev.decmut.accepted) :
+            LET a == ev.decmut.accepted[q] IN
+            /\ (a.reenc_same \/ Report("C04", "decoder_accepts_script_it_does_not_reencode", ev, <<a.mut, a.hex>>))
+            /\ (~a.known \/ Encode(a.ast, ctx) = a.ops \/ Report("C04", "decoder_accepts_noncanonical_script", ev, <<a.mut, a.hex>>))
       \* C07
       /\ (st.b # "B" \/ ~ev.lift.ok \/
           \A w \in WorldsOfCtx(ev.ast, ctx) :
